@@ -81,7 +81,13 @@ var (
 // contents never influence a run because identities are passed explicitly).
 func scratchDir() string {
 	stateDirOnce.Do(func() {
-		d, err := os.MkdirTemp("", "verif-wire-")
+		// in the worker's own working directory (the runner's per-check output
+		// directory), not in the system temp directory that others clean
+		wd, err := os.Getwd()
+		if err != nil {
+			panic(err)
+		}
+		d, err := os.MkdirTemp(wd, "scratch-state-")
 		if err != nil {
 			panic(err)
 		}
